@@ -4,3 +4,23 @@ open ZnVerif.Properties.C08
 #print axioms this_without_receiver_is_error
 #print axioms unknown_property_is_error
 #print axioms property_write_local
+#print axioms arity_mismatch_runs_nothing
+#print axioms call_eq
+#print axioms args_mapM_cons
+#print axioms args_left_to_right_once
+#print axioms args_values_iff
+#print axioms failing_argument_stops_call
+#print axioms stmts_stop_at_return
+#print axioms ret_sets_slot
+#print axioms block_value_is_return
+#print axioms call_result_is_return
+#print axioms yield_binds_const
+#print axioms mcall_eq
+#print axioms chain_feeds_result
+#print axioms chain_step_calls_receiver
+#print axioms constructor_gets_args_and_this
+#print axioms unknown_method_is_error
+#print axioms unknown_builtin_method_is_error
+#print axioms unknown_builtin_method_call_is_error
+#print axioms output_only_grows
+#print axioms call_trace_is_args_then_body
